@@ -113,6 +113,49 @@ def run_mutants(prop, seed=0, only=None):
     return out
 
 
+def run_seeds(prop):
+    """The independently written breaking changes kept under /verif/seeded/<prop>-*/patch.diff (see DESIGN.md section
+    9) are replayed like the mutants: applied to a scratch copy of the current tree, the property's rules evaluated,
+    `killed` iff some rule of this property reports something the unpatched tree does not."""
+    sd = os.path.join(VERIF, "seeded")
+    ids = sorted(d for d in os.listdir(sd) if d.startswith(prop + "-") and os.path.exists(os.path.join(sd, d, "patch.diff"))) \
+        if os.path.isdir(sd) else []
+    out = []
+    if not ids:
+        return out
+    base = tempfile.mkdtemp(prefix="jawk-selftest-")
+    try:
+        baseline, d0 = evaluate(prop, None, "")
+        for sid in ids:
+            w = os.path.join(base, "tree")
+            shutil.rmtree(w, ignore_errors=True)
+            _copy_tree(w)
+            rec = {"name": sid, "kind": "seeded change"}
+            ok = subprocess.run(["git", "apply", os.path.join(sd, sid, "patch.diff")], cwd=w,
+                                stdout=subprocess.DEVNULL, stderr=subprocess.DEVNULL).returncode == 0
+            if not ok:
+                rec["status"] = "skipped"
+                rec["why"] = "patch does not apply to the current tree"
+                out.append(rec)
+                continue
+            try:
+                bad, d = evaluate(prop, w, "-mut")
+                new = {rid: [k for k in keys if k not in baseline.get(rid, [])] for rid, keys in bad.items()}
+                new = {rid: ks for rid, ks in new.items() if ks}
+                rec["reported"] = {rid: ks[:3] for rid, ks in new.items()}
+                rec["status"] = "killed" if new else "survived"
+                rec["expect"] = "any rule of " + prop
+            except Exception as e:
+                rec["status"] = "skipped"
+                rec["why"] = "patched tree could not be analysed: %s" % str(e)[-300:]
+            out.append(rec)
+    finally:
+        shutil.rmtree(base, ignore_errors=True)
+        from lib import extract as ex
+        shutil.rmtree(os.path.join(ex.CACHE, "facts", "dev-mut"), ignore_errors=True)
+    return out
+
+
 def crossrefs(prop):
     """Independent cross-references (thorough tier). C05: clippy's restriction lints, computed by a different tool from
     the type-checked HIR, must count the same unwrap/expect/str-slice/panic! sites as the MIR census."""
